@@ -15,6 +15,7 @@ Section TyInd.
   Hypothesis HEnum : forall ts, Forall Q ts -> Q (TEnum ts).
   Hypothesis HArr : forall t, Q t -> Q (TArr t).
   Hypothesis HSnap : forall t, Q t -> Q (TSnap t).
+  Hypothesis HBox : forall t, Q t -> Q (TBox t).
   Fixpoint ty_ind' (t : ty) : Q t :=
     match t with
     | TInt i => HInt i
@@ -32,6 +33,7 @@ Section TyInd.
                                end) ts)
     | TArr t => HArr t (ty_ind' t)
     | TSnap t => HSnap t (ty_ind' t)
+    | TBox t => HBox t (ty_ind' t)
     end.
 End TyInd.
 
@@ -61,6 +63,7 @@ Proof.
   - reflexivity.
   - rewrite (ty_list_eqb_eq _ H _ Hb). reflexivity.
   - rewrite (ty_list_eqb_eq _ H _ Hb). reflexivity.
+  - rewrite (IHa _ Hb). reflexivity.
   - rewrite (IHa _ Hb). reflexivity.
   - rewrite (IHa _ Hb). reflexivity.
 Qed.
@@ -416,7 +419,7 @@ Section Sound.
     tc (sigs p) R L G (EEnum ty0 idx e1) = Some t -> env_ok G s ->
     eval p (S n) s (EEnum ty0 idx e1) = (r, s') -> env_ok G s' /\ res_ok R L t r.
   Proof.
-    start. destruct ty0 as [| | | |vts| |]; try discriminate.
+    start. destruct ty0 as [| | | |vts| | |]; try discriminate.
     destruct (tc (sigs p) R L G e1) as [ta|] eqn:T1; [|discriminate].
     destruct (nth_error vts idx) as [pt|] eqn:N; [|discriminate].
     tcase (ty_eqb ta pt) as Q. teq Q. inversion T; subst.
@@ -554,9 +557,9 @@ Section Sound.
     eval p (S n) s (ETry e1) = (r, s') -> env_ok G s' /\ res_ok R L t r.
   Proof.
     start. destruct (tc (sigs p) R L G e1) as [ta|] eqn:T1; [|discriminate].
-    destruct ta as [| | | |vts| |]; try discriminate.
+    destruct ta as [| | | |vts| | |]; try discriminate.
     destruct vts as [|ok [|err [|]]]; try discriminate.
-    destruct R as [| | | |rts| |]; try discriminate.
+    destruct R as [| | | |rts| | |]; try discriminate.
     destruct rts as [|rok [|rerr [|]]]; try discriminate.
     tcase (ty_eqb err rerr) as Q. teq Q. inversion T; subst.
     bind T1. intros v s1 V Hs1 K.
@@ -569,7 +572,7 @@ Section Sound.
     eval p (S n) s (EUnwrap msg e1) = (r, s') -> env_ok G s' /\ res_ok R L t r.
   Proof.
     start. destruct (tc (sigs p) R L G e1) as [ta|] eqn:T1; [|discriminate].
-    destruct ta as [| | | |vts| |]; try discriminate.
+    destruct ta as [| | | |vts| | |]; try discriminate.
     destruct vts as [|ok [|err [|]]]; try discriminate. inversion T; subst.
     bind T1. intros v s1 V Hs1 K.
     destruct (vtb_enum_inv _ _ V) as [idx [pv ->]].
@@ -602,7 +605,7 @@ Section Sound.
     eval p (S n) s (EArrAppend x e1) = (r, s') -> env_ok G s' /\ res_ok R L t r.
   Proof.
     start. destruct (lookupT x G) as [tx|] eqn:Lx; [|discriminate].
-    destruct tx as [| | | | |te|]; try discriminate.
+    destruct tx as [| | | | |te| |]; try discriminate.
     destruct (tc (sigs p) R L G e1) as [ta|] eqn:T1; [|discriminate].
     tcase (ty_eqb ta te) as Q. teq Q. inversion T; subst.
     bind T1. intros v s1 V Hs1 K.
@@ -619,7 +622,7 @@ Section Sound.
     eval p (S n) s (EArrPop x) = (r, s') -> env_ok G s' /\ res_ok R L t r.
   Proof.
     start. destruct (lookupT x G) as [tx|] eqn:Lx; [|discriminate].
-    destruct tx as [| | | | |te|]; try discriminate. inversion T; subst.
+    destruct tx as [| | | | |te| |]; try discriminate. inversion T; subst.
     destruct (lookup_ok _ _ _ _ Hs Lx) as [av [E Va]]. rewrite E in H.
     destruct (vtb_arr_inv _ _ Va) as [l ->]. apply vtb_arr in Va.
     destruct l as [|h tl0].
@@ -631,7 +634,7 @@ Section Sound.
 
   Lemma arr_elem_val tx te v : arr_elem tx = Some te -> vtb tx v = true -> vtb (TArr te) v = true.
   Proof.
-    intros A V. destruct tx as [| | | | |e|e]; cbn in A; try discriminate.
+    intros A V. destruct tx as [| | | | |e|e|]; cbn in A; try discriminate.
     - inversion A; subst. exact V.
     - destruct e; try discriminate. inversion A; subst. exact V.
   Qed.
@@ -652,7 +655,7 @@ Section Sound.
   Proof.
     start. destruct (lookupT x G) as [tx|] eqn:Lx; [|discriminate].
     destruct (tc (sigs p) R L G i) as [ti|] eqn:Ti; [|discriminate].
-    destruct ti as [ii| | | | | |]; try discriminate. destruct ii; try discriminate.
+    destruct ti as [ii| | | | | | |]; try discriminate. destruct ii; try discriminate.
     bind Ti. intros iv s1 Vi Hs1 K.
     destruct (vtb_int_inv _ _ Vi) as [z ->].
     destruct (lookup_ok _ _ _ _ Hs1 Lx) as [av [E Va]]. rewrite E in K.
@@ -732,7 +735,7 @@ Section Sound.
     eval p (S n) s (EMatch e1 arms) = (r, s') -> env_ok G s' /\ res_ok R L t r.
   Proof.
     start. destruct (tc (sigs p) R L G e1) as [ta|] eqn:T1; [|discriminate].
-    destruct ta as [| | | |vts| |]; try discriminate.
+    destruct ta as [| | | |vts| | |]; try discriminate.
     change (tc_arms R L G arms vts None = Some t) in T.
     destruct (tc_arms_spec _ _ _ _ _ _ _ T) as [_ B].
     bind T1. intros v s1 V Hs1 K.
@@ -896,6 +899,82 @@ Section Sound.
     - inversion H; subst. destruct Hl as [Hr NV]. split; [assumption|]. eapply res_ok_retype; eauto.
   Qed.
 
+  (* ---------- boxes, destructuring, non-panicking arithmetic ---------- *)
+  Lemma case_EBox e1 : forall R L G t s r s',
+    tc (sigs p) R L G (EBox e1) = Some t -> env_ok G s ->
+    eval p (S n) s (EBox e1) = (r, s') -> env_ok G s' /\ res_ok R L t r.
+  Proof.
+    start. destruct (tc (sigs p) R L G e1) as [ta|] eqn:T1; [|discriminate]. inversion T; subst.
+    destruct (IH _ _ _ _ _ _ _ _ T1 Hs H) as [Hs1 Hr]. split; [assumption|].
+    destruct r; cbn in *; auto.
+  Qed.
+
+  Lemma case_EUnbox e1 : forall R L G t s r s',
+    tc (sigs p) R L G (EUnbox e1) = Some t -> env_ok G s ->
+    eval p (S n) s (EUnbox e1) = (r, s') -> env_ok G s' /\ res_ok R L t r.
+  Proof.
+    start. destruct (tc (sigs p) R L G e1) as [ta|] eqn:T1; [|discriminate].
+    destruct ta; try discriminate. inversion T; subst.
+    destruct (IH _ _ _ _ _ _ _ _ T1 Hs H) as [Hs1 Hr]. split; [assumption|].
+    destruct r; cbn in *; auto.
+  Qed.
+
+  Lemma bind_many_ok : forall xs ts vs G s,
+    Forall2 (fun t v => vtb t v = true) ts vs -> length xs = length ts -> env_ok G s ->
+    exists s2, bind_many xs vs s = Some s2 /\ env_ok (rev (combine xs ts) ++ G) s2.
+  Proof.
+    induction xs as [|x xs IHx]; intros ts vs G s F Len Hs.
+    - destruct ts; [|discriminate]. inversion F; subst. exists s. split; [reflexivity|assumption].
+    - destruct ts as [|t ts]; [discriminate|]. inversion F as [|? v ? vr V F']; subst.
+      cbn [bind_many combine rev]. rewrite <- app_assoc. cbn [app].
+      apply IHx; auto. apply env_ok_push; assumption.
+  Qed.
+
+  Lemma env_ok_skipn A G s : env_ok (A ++ G) s -> env_ok G (skipn (length A) s).
+  Proof.
+    revert s. induction A as [|a A IHA]; intros s H; cbn.
+    - exact H.
+    - inversion H; subst. cbn. apply IHA. assumption.
+  Qed.
+
+  Lemma case_ELetTup xs e1 body : forall R L G t s r s',
+    tc (sigs p) R L G (ELetTup xs e1 body) = Some t -> env_ok G s ->
+    eval p (S n) s (ELetTup xs e1 body) = (r, s') -> env_ok G s' /\ res_ok R L t r.
+  Proof.
+    start. destruct (tc (sigs p) R L G e1) as [ta|] eqn:T1; [|discriminate].
+    destruct ta as [| | |ts| | | |]; try discriminate.
+    destruct (Nat.eqb (length xs) (length ts)) eqn:Len; [|discriminate]. apply Nat.eqb_eq in Len.
+    bind T1. intros v s1 V Hs1 K.
+    destruct (vtb_tup_inv _ _ V) as [vs ->]. apply vtb_tup in V.
+    destruct (bind_many_ok _ _ _ _ _ V Len Hs1) as [s2 [Eb Hs2]]. rewrite Eb in K.
+    destruct (eval p n s2 body) as [r2 s3] eqn:E2.
+    destruct (IH _ _ _ _ _ _ _ _ T Hs2 E2) as [Hs3 Hr2].
+    unfold popn in K. cbn in K. inversion K; subst. split; [|assumption].
+    replace (length xs) with (length (rev (combine xs ts))).
+    - apply env_ok_skipn. assumption.
+    - rewrite rev_length, combine_length, Len. apply Nat.min_id.
+  Qed.
+
+  Lemma case_EArith k o ty0 e1 e2 : forall R L G t s r s',
+    tc (sigs p) R L G (EArith k o ty0 e1 e2) = Some t -> env_ok G s ->
+    eval p (S n) s (EArith k o ty0 e1 e2) = (r, s') -> env_ok G s' /\ res_ok R L t r.
+  Proof.
+    start. destruct (tc (sigs p) R L G e1) as [ta|] eqn:T1; [|discriminate].
+    destruct (tc (sigs p) R L G e2) as [tb|] eqn:T2; [|discriminate].
+    tcase (ty_eqb ta ty0 && ty_eqb tb ty0) as Q.
+    apply andb_true_iff in Q. destruct Q as [A B]. teq A. teq B.
+    bind T1. intros a s1 Va Hs1 K.
+    bind T2. intros b s2 Vb Hs2 K2.
+    unfold arith_ty in T. destruct ty0 as [i| | | | | | |]; try discriminate.
+    destruct (vtb_int_inv _ _ Va) as [x ->]. destruct (vtb_int_inv _ _ Vb) as [y ->].
+    eapply of_opres_sound; [eassumption| |exact K2].
+    unfold arith_sem.
+    destruct o; try discriminate; cbn in T |- *;
+      try (destruct (isigned i); cbn in T |- *; try discriminate);
+      destruct k; inversion T; subst; cbn;
+      repeat match goal with |- context [if ?c then _ else _] => destruct c end; reflexivity.
+  Qed.
+
   (* ---------- the step ---------- *)
   Lemma sound_step : sound_at (S n).
   Proof.
@@ -934,6 +1013,10 @@ Section Sound.
     - apply case_EArrAt.
     - apply case_ESnap.
     - apply case_EDesnap.
+    - apply case_EBox.
+    - apply case_EUnbox.
+    - apply case_ELetTup.
+    - apply case_EArith.
   Qed.
 End Sound.
 
